@@ -98,8 +98,25 @@ def mode_option_case(args, name='modeopt'):
     return []
 
 
+def refused_load_case(answer):
+    """--load of a session whose ruleset was retrained in the meantime (another uuid): the program refuses; whatever is typed on its
+    standard input, nothing but guesses may reach standard output - here: nothing at all"""
+    name = 'refused'
+    common.install_ruleset(MODE_SPEC, name)
+    o1, e1, rc1 = common.run_cli('pcfg_guesser.py', ['-r', name, '-s', 'refused', '-n', '5'], stdin='pipe-open')
+    common.install_ruleset(dict(MODE_SPEC, uuid='00000000-0000-0000-0000-0000000000aa'), name)
+    o2, e2, rc2 = common.run_cli('pcfg_guesser.py', ['-s', 'refused', '--load', '-n', '5'], stdin='pipe-input-eof', input_bytes=answer)
+    if o2 != b'':
+        return [{'property': 'C09', 'kind': 'stdout-not-guess-stream', 'stdout_head': repr(o2[:80]), 'lines': o2.count(b'\n'),
+                 'witness': {'refused_load_answer': answer.decode()}}]
+    return []
+
+
 def mode_option_cases(ctx):
     viol, runs = [], 0
+    for answer in ([b'y\n'] if ctx.quick else [b'y\n', b'n\n', b'']):
+        viol += refused_load_case(answer)
+        runs += 2
     combos = [['-m', 'random_walk', '-n', '6', '--load'], ['-m', 'honeywords', '-n', '5', '--load', '-s', 'other'],
               ['-m', 'random_walk', '-n', '4', '--all_lower', '--skip_brute']]
     if not ctx.quick:
@@ -194,6 +211,8 @@ def replay(ctx, payload):
     w = payload.get('violation', {}).get('witness') or {}
     if 'mode_args' in w:
         return mode_option_case(w['mode_args'], 'replaymode')
+    if 'refused_load_answer' in w:
+        return refused_load_case(w['refused_load_answer'].encode())
     if 'cli' in w:
         name = 'replay'
         d = common.install_ruleset(w['spec'], name)
